@@ -423,6 +423,14 @@ static psRes_t sslLoadKeyPair(psPool_t *pool,
             {
                 goto out;
             }
+            if (key->type != PS_RSA)
+            {
+                /* The PKCS#8 structure holds a key of another algorithm:
+                   not loadable as the RSA key that was asked for. */
+                psClearPubKey(key);
+                err = PS_PARSE_FAIL;
+                goto out;
+            }
 #   else
             goto out;
 #   endif
@@ -449,6 +457,14 @@ static psRes_t sslLoadKeyPair(psPool_t *pool,
                     key);
             if (err < 0)
             {
+                goto out;
+            }
+            if (key->type != PS_ECC)
+            {
+                /* The PKCS#8 structure holds a key of another algorithm:
+                   not loadable as the EC key that was asked for. */
+                psClearPubKey(key);
+                err = PS_PARSE_FAIL;
                 goto out;
             }
 #   else
